@@ -8,6 +8,8 @@ Import ListNotations.
 Open Scope N_scope.
 
 Definition fsys := list (N * N).
+(* the working directory, as a directory number of its own (it is on no search list) *)
+Definition cwd : N := 999.
 Definition has (fs : fsys) (d f : N) : bool := existsb (fun '(d', f') => (d =? d') && (f =? f')) fs.
 
 Inductive ipath : Type :=
@@ -45,9 +47,10 @@ Section Expand.
   Variable fs : fsys.
   Variable search env : option (list N).
   Variable content : N -> N -> list item.      (* content of file f in directory d *)
-  (* can the resolved path be read: a file of the file system (the working directory holds none) *)
+  (* can the resolved path be read: a file of the file system; a path that was not found in any
+     search directory is opened as written, i.e. relative to the working directory [cwd] *)
   Definition readable (r : rpath) : bool :=
-    match r with RFile d f => has fs d f | RAsGiven _ => false end.
+    match r with RFile d f => has fs d f | RAsGiven f => has fs cwd f end.
 
   (* fuel bounds the include depth (files including files); the list is consumed structurally *)
   Fixpoint expand (fuel : nat) : list item -> list iev :=
@@ -61,6 +64,7 @@ Section Expand.
           (if readable rp then
              match fuel, rp with
              | S f', RFile d f => expand f' (content d f)
+             | S f', RAsGiven f => expand f' (content cwd f)
              | _, _ => []
              end
            else [EUnreadable rp]) ++ go r
